@@ -195,6 +195,12 @@ def run(ctx):
     cc = [("frag-3SGB-I [ccc]", "frag-3SGB-I [ccc]", 300000, (1, 0, 0), 0, False),
           ("frag-3SGB-I [ccc+shared+keep]", "frag-3SGB-I [ccc+shared+keep]", 27000, (0, 0, 1), 1, False)]
     combos += cc if ctx.thorough() else [cc[ctx.seed % 2]]
+    # a far part with alternate locations: the union has two conformations, the intact part is the same in both and in the
+    # reported average (PartOfMulti)
+    from . import c08
+    ps["alt-rotamers-AB"] = C.body(dict(c08.constructed(ctx))["alt-rotamers-AB"])
+    ma = [("1HPX-A", "alt-rotamers-AB", 600000, (1, 0, 0), 0, False), ("1HPX-A", "alt-rotamers-AB", 45000, (0, -1, 0), 1, False)]
+    combos += ma if ctx.thorough() else [ma[ctx.seed % 2]]
     # earlier work in the same process - a run under a parameter file with much larger cut-offs - leaves nothing behind
     from . import c02
     prime = c02.param_file({"desolv_cutoff": 100.0, "buried_cutoff": 80.0, "coulomb_cutoff2": 40.0}, "wide-cutoffs")
@@ -245,10 +251,11 @@ def run(ctx):
             if rp.exc is not None:
                 continue
             ctx.nontriv((a, b, gap, d, order, tag))
-            rels.append(relations.relate("Part", rp, ptext, ru, union, scope_all_a=True, with_bonds=True,
+            multi = len(ru.mol.conformation_names) != len(rp.mol.conformation_names)
+            rels.append(relations.relate("PartOfMulti" if multi else "Part", rp, ptext, ru, union, scope_all_a=True, with_bonds=not multi,
                                          meta=dict(meta, part=tag, part_pdb=ptext)))
     ctx.extra["placements_skipped_field_limit"] = skipped
-    viol = relations.validate(ctx, rels, ["SameConfs", "Part", "SameBonds"], "part alone vs part inside union")
+    viol = relations.validate(ctx, rels, ["SameConfs", "Part", "PartOfMulti", "SameBonds"], "part alone vs part inside union")
     seen = set()
     for inv, lst in sorted(viol.items()):
         for rel in lst:
